@@ -387,6 +387,26 @@ def _cls_ctl_all(ic, tier):
             m.comb += [If(env["c"] == 2, y.eq(env["a"]), z.eq(env["b"])).Elif(env["c"][0], z[0:2].eq(env["a"])), If(~env["a"][0], y[0].eq(1))]
             return [y, z]
         fr.append((f"If(c==2,y{tlabel(t)}<=a,z<=b).Elif(c0,z[0:2]<=a);If(~a0,y[0]<=1)", g1))
+
+        # one comb group in which a statement READS a target that a LATER statement of the group assigns (the emitted
+        # always @(*) block must reach the same fix-point as the simulator: non-blocking assignments + re-triggering)
+        def g2(m, env, t=t):
+            y = m.new_target(t, reset=2); z = m.new_target((3, False), reset=0)
+            m.comb += If(env["a"][0], If(z[0], y.eq(env["b"])), z.eq(env["c"]))
+            return [y, z]
+        fr.append((f"If(a0,If(z0,y{tlabel(t)}<=b),z<=c) [reads z before it is assigned]", g2))
+
+        def g3(m, env, t=t):
+            y = m.new_target(t, reset=1); z = m.new_target((3, False), reset=4)
+            m.comb += [If(z == 3, y.eq(env["a"])), If(env["b"][0], z.eq(3), y[0].eq(0)).Else(z.eq(env["c"]))]
+            return [y, z]
+        fr.append((f"If(z==3,y{tlabel(t)}<=a);If(b0,z<=3,y[0]<=0).Else(z<=c) [reads z before it is assigned]", g3))
+
+        def g4(m, env, t=t):
+            y = m.new_target(t, reset=0)
+            m.comb += [If(y[1], y[0].eq(1)), y[1].eq(env["a"][0]), If(y[0] & env["c"][0], y[2].eq(1))]
+            return [y]
+        fr.append((f"If(y1,y{tlabel(t)}[0]<=1);y[1]<=a0;If(y0&c0,y[2]<=1) [reads its own bits before and after they are assigned]", g4))
     return fr
 
 
